@@ -194,7 +194,12 @@ def run_property(prop, tier="quick", seed=0, out=sys.stdout):
                 for ob in r.fn(ctx):
                     # ("C02", "sync") keeps the obligations about sync::..., ("C02", "!unsync") everything but those about unsync::... (code shared by both
                     # flavours - the handles - serves the sync arena too)
-                    if only is not None and (bool(re.search(r"(?<![a-z])%s::" % only.lstrip("!"), ob.key)) == only.startswith("!")):
+                    # ("C16", "key:(vec|anon)-copy") keeps the obligations whose key matches the expression (a rule with clauses that matter to the other property
+                    # and clauses that do not)
+                    if only is not None and only.startswith("key:"):
+                        if not re.search(only[4:], ob.key):
+                            continue
+                    elif only is not None and (bool(re.search(r"(?<![a-z])%s::" % only.lstrip("!"), ob.key)) == only.startswith("!")):
                         continue
                     ob.rule = r
                     ob.config = cfg
